@@ -310,3 +310,57 @@ def leaf_variant(via_map):
 
 
 CONTRACTS = CONTRACTS + [leaf_variant(False), leaf_variant(True)]
+
+
+# ------------------------------------------------------------------------------------------------------------------ C03: remove_useless (latter-map trimming)
+CONTRACTS = CONTRACTS + [dict(
+    name="dsw.graphized.remove_useless", n_loops=4,
+    # the two classification lists are only appended to and tested for membership: abstracted to their element sets (`list_members`)
+    types={"remove_vertices": "list_members", "saved_vertices": "list_members"},
+    # pos0: the position of every key in the insertion order (a fact about every Python dict, made explicit as a ghost function)
+    # S: an ARBITRARY vertex set that is closed in the input map (universally quantified ghost input, as in connect_coding_graph#t234)
+    ghost_params={"pos0": "arr", "S": "arr"},
+    params={"latter_map": "dict", "threshold": "int", "verbose": "false"},
+    requires={"short-lists": "lm_small(latter_map)", "every-key-is-listed-once": "lm_indexed(latter_map, pos0)",
+              "S-is-closed-in-the-input": "lm_sclosed(latter_map, S, threshold)"},
+    returns="dict",
+    ensures={"sub-map": "lm_sub(result, old(latter_map))",
+             "closed": "lm_closed(result, threshold)",
+             # ... and it contains every closed vertex set of the input: it is the LARGEST closed sub-map
+             "contains-every-closed-subset": "lm_sclosed(result, S, threshold)"},
+    raises={},
+    # refutation: the real function on small latter maps (complete, and with a key removed so that some successors dangle), thresholds 0..4
+    concrete_inputs="[dict(latter_map=m_, threshold=t_, verbose=False, pos0={a_: i_ for i_, a_ in enumerate(m_)}, S=s_) for m_ in small_latter_maps() for t_ in (0, 1, 2, 3, 4) for s_ in closed_sets(m_, t_)]",
+    partial_correctness_loops=(1,),
+    ghost={"entry": "posD = pos0\nposN = pos0",
+           "before_loop3": "posN = pos0",
+           "loop3_begin": "if former_vertex not in remove_vertices:\n    posN = aupd(posN, former_vertex, len(order(new_latter_map)))",
+           # a list of the map has at most four entries: the position read is split into its four cases
+           "loop4_begin": "if _i == 0:\n    pass\nelif _i == 1:\n    pass\nelif _i == 2:\n    pass\nelse:\n    pass\n"
+                          "assert lmemb(latter_map, former_vertex, latter_vertex), 'the-entry-read-is-an-entry'",
+           "after_assign:latter_map": "posD = posN"},
+    loops={1: dict(binds="True", invariant={"sub-map": "lm_sub(latter_map, old(latter_map))",
+                                            "indexed": "lm_indexed(latter_map, posD)",
+                                            "S-still-closed": "lm_sclosed(latter_map, S, threshold)"}),
+           2: dict(binds="enumerate(latter_map.items())", invariant={
+               "removed-are-small": "ml_sound(remove_vertices, latter_map, threshold, False)",
+               "saved-are-big": "ml_sound(saved_vertices, latter_map, threshold, True)",
+               "classified-so-far": "lm_classified(latter_map, posD, _i, remove_vertices, saved_vertices)",
+               "no-member-of-S-removed": "ml_outside(remove_vertices, S)"}),
+           3: dict(binds="enumerate(latter_map.items())", invariant={
+               "sub-map-so-far": "lm_sub(new_latter_map, latter_map)",
+               "indexed-so-far": "lm_indexed(new_latter_map, posN)",
+               "new-keys-are-processed-keys": "forall(lambda i: posD[order(new_latter_map)[i]] < _i, 0, len(order(new_latter_map)))",
+               "processed-so-far": "lm_processed(latter_map, posD, _i, remove_vertices, new_latter_map)",
+               "kept-keys-are-big": "lm_kept_big(new_latter_map, latter_map, threshold)",
+               "S-kept-so-far": "lm_skept(latter_map, posD, _i, new_latter_map, S, threshold)",
+               "nothing-dropped-so-far": "implies(not remove_flag, lm_full(new_latter_map, latter_map, remove_vertices, saved_vertices))"}),
+           4: dict(binds="latter_vertices", invariant={
+               "taken-from-the-list": "0 <= len(available_latter_vertices) <= _i and "
+                                      "forall(lambda q: lmemb(latter_map, former_vertex, available_latter_vertices[q]), 0, len(available_latter_vertices))",
+               "kept-entries": "forall(lambda q: (available_latter_vertices[q] in saved_vertices) and not (available_latter_vertices[q] in remove_vertices), "
+                               "0, len(available_latter_vertices))",
+               "nothing-dropped-so-far": "implies(not remove_flag, lm_full(new_latter_map, latter_map, remove_vertices, saved_vertices) and "
+                                         "len(available_latter_vertices) == _i)",
+               "members-of-S-kept": "scount(S, latter_vertices, _i) <= scount(S, available_latter_vertices, len(available_latter_vertices))"})},
+)]
